@@ -513,7 +513,8 @@ def denoteDirective (name : AttrName) (value : Node) : DDir :=
         let arg := match argS with | some a => some (nStr a) | none => some second
         match (plainElem elems 2).bind arrayElems with
         | some ms => { name := dname, arg := arg, mods := strs ms, value := v, ood := ood }
-        | none => { name := dname, arg := arg, mods := [], value := v, ood := ood }
+        -- "its modifiers are the `_mod` suffixes or the array-form list": no list in the array, so the suffixes
+        | none => { name := dname, arg := arg, mods := setOfList sufMods, value := v, ood := ood }
     | none => { name := dname, arg := argS.map nStr, mods := setOfList sufMods, value := v, ood := ood }
   | none => { name := dname, arg := argS.map nStr, mods := setOfList sufMods, value := vexpr.getD (S "undef" [] []),
               ood := vexpr.isNone }
